@@ -64,6 +64,7 @@ let rec kind_name = function
   | CEIncludeNotExist -> "includenotexist" | CEIncludeRecursion -> "includerecursion" | CEAnnotForbidden -> "annotforbidden"
   | CENameRequired -> "namerequired" | CEEmptyMacro -> "emptymacro" | CEDupName -> "dupname" | CERecursion -> "recursion"
   | CEMacroNotFound -> "macronotfound" | CEWrapped k -> "wrapped:" ^ kind_name k
+  | CEMsg s -> "msg:" ^ Stdlib.String.map (fun c -> if c = ' ' then '_' else c) (string_of_coq s)
 
 let string_of_bytes (b : n list) = Stdlib.String.concat "" (Stdlib.List.map (fun x -> Stdlib.String.make 1 (Char.chr (int_of_n x))) b)
 let bytes_of_string (s : Stdlib.String.t) = Stdlib.List.init (Stdlib.String.length s) (fun i -> n_of_int (Char.code s.[i]))
